@@ -1,6 +1,7 @@
 """C20 - Skipping validation never changes results; config is per-thread."""
 import json
 import queue
+import sys
 import threading
 
 import numpy as np
@@ -191,6 +192,465 @@ def run_prog_in_thread(p, start):
     return res.get('v')
 
 
+# ------------------------------------------------------------------ one context object entered many times
+#
+# Every public way of using a config_context object: `with` block, function decorator (contextlib decorator protocol),
+# the same object entered again while it is active (decorated functions calling each other, recursion, exceptions
+# inside), one object / decorated function shared by several threads.  The expected setting is computed here, by a
+# plain stack discipline that does not look at the implementation: entering a block with value v saves the current
+# setting and (v not None) makes v current, leaving it by any route makes the saved setting current again; a thread
+# only sees what it set itself.  An implementation may refuse an entry (an object that cannot be entered again raises
+# at entry): then nothing may change.
+
+class Abort(Exception):
+    """a discrepancy was found; unwinds the program (not caught by the program's own handlers)"""
+
+
+_PROBE = {}
+
+
+def validation_active():
+    """behavioural reading of the flag: with validation on, a NaN input is rejected"""
+    if 'lf' not in _PROBE:
+        _PROBE['lf'] = pykoop.PolynomialLiftingFn(order=2).fit(np.array([[1.0, 2.0], [3.0, 4.0], [5.0, 6.0]]))
+        _PROBE['bad'] = np.array([[1.0, np.nan]])
+    try:
+        with np.errstate(all='ignore'):
+            _PROBE['lf'].transform(_PROBE['bad'])
+    except ValueError:
+        return True
+    return False
+
+
+def _call_a(thunk):
+    return thunk()
+
+
+def _call_b(thunk):
+    thunk()
+    return None
+
+
+def gen_reprog(rng, npool, depth=4, length=5):
+    """structured program over a pool of context objects, as nested lists"""
+    if length == 0:
+        return ['k']
+    r = rng.random()
+
+    def rest():
+        return gen_reprog(rng, npool, depth, length - 1)
+
+    def body():
+        return gen_reprog(rng, npool, depth - 1, rng.randint(0, 3))
+    if r < 0.20:
+        return ['g', rest()]
+    if r < 0.25:
+        return ['v', rest()]
+    if r < 0.36:
+        return ['s', rng.choice([None, True, False]), rest()]
+    if r < 0.42:
+        return ['r']
+    if depth <= 0:
+        return ['g', rest()]
+    if r < 0.70:
+        return ['d', rng.randrange(npool), rng.randrange(2), body(), rest()]
+    if r < 0.78:
+        return ['n', rng.randrange(npool), rng.randint(1, 3), body(), rest()]
+    if r < 0.84:
+        return ['w', npool - 1, body(), rest()]       # the last pool object is used both ways
+    if r < 0.92:
+        return ['f', rng.choice([None, True, False]), body(), rest()]
+    return ['t', body(), rest()]
+
+
+class Reentry:
+    """runs a program on the implementation and on the stack discipline in lockstep"""
+
+    def __init__(self, vals, start):
+        self.vals = list(vals)
+        self.start = start
+        self.cms = [pykoop.config_context(skip_validation=v) for v in self.vals]
+        # two different functions decorated by the same object, per object
+        self.fns = [[cm(_call_a), cm(_call_b)] for cm in self.cms]
+        self.cur = None
+        self.bad = None
+        self.reads = 0
+        self.refused = 0
+        self.exit_errors = 0
+        self.entered = 0
+        self.active = [0] * len(self.vals)
+        self.max_same = 0
+        self.path = []
+
+    def check(self, where):
+        real = pykoop.get_config().get('skip_validation')
+        self.reads += 1
+        if real is not self.cur:
+            self.bad = {'at': where, 'path': ' > '.join(self.path), 'expected': self.cur, 'observed': real}
+            raise Abort()
+
+    def probe(self, where):
+        act = validation_active()
+        self.reads += 1
+        if act is not (not self.cur):
+            self.bad = {'at': where + ' (NaN input ' + ('rejected' if act else 'accepted') + ')',
+                        'path': ' > '.join(self.path), 'expected': self.cur, 'observed': not act}
+            raise Abort()
+
+    def _block(self, k, v, enter, inner, where):
+        """one entry of a context (k: pool index or None for a fresh object); `enter(thunk)` runs thunk inside"""
+        saved = self.cur
+        ran = [False]
+
+        def thunk():
+            ran[0] = True
+            self.entered += 1
+            if k is not None:
+                self.active[k] += 1
+                self.max_same = max(self.max_same, self.active[k])
+            if v is not None:
+                self.cur = v
+            self.path.append(where)
+            try:
+                self.check('inside ' + where)
+                inner()
+            finally:
+                # the implementation restores right after this frame is left
+                self.path.pop()
+                self.cur = saved
+                if k is not None:
+                    self.active[k] -= 1
+        try:
+            enter(thunk)
+        except Abort:
+            raise
+        except Boom:
+            self.check('after ' + where + ' left by an exception')
+            raise
+        except Exception:
+            if ran[0]:
+                self.exit_errors += 1
+            else:
+                self.refused += 1
+                self.check('after refused entry of ' + where)
+                return
+        self.check('after ' + where)
+
+    def _with(self, cm):
+        def enter(thunk):
+            with cm:
+                thunk()
+        return enter
+
+    def ex(self, p):
+        while True:
+            op = p[0]
+            if op == 'k':
+                return
+            if op == 'g':
+                self.check('get_config')
+                p = p[1]
+            elif op == 'v':
+                self.probe('validation probe')
+                p = p[1]
+            elif op == 's':
+                pykoop.set_config(skip_validation=p[1])
+                if p[1] is not None:
+                    self.cur = p[1]
+                self.check('after set_config')
+                p = p[2]
+            elif op == 'r':
+                raise Boom()
+            elif op == 'd':
+                k, j, body = p[1], p[2], p[3]
+                self._block(k, self.vals[k], self.fns[k][j], lambda: self.ex(body), f'call of function {j} decorated by object {k}')
+                p = p[4]
+            elif op == 'n':
+                k, n, body = p[1], p[2], p[3]
+
+                def level(m):
+                    if m == 0:
+                        return self.ex(body)
+                    self._block(k, self.vals[k], self.fns[k][0], lambda: level(m - 1),
+                                f'recursive call (level {n - m + 1}) of the function decorated by object {k}')
+                level(n)
+                p = p[4]
+            elif op == 'w':
+                k, body = p[1], p[2]
+                self._block(k, self.vals[k], self._with(self.cms[k]), lambda: self.ex(body), f'with-block on object {k}')
+                p = p[3]
+            elif op == 'f':
+                v, body = p[1], p[2]
+                self._block(None, v, self._with(pykoop.config_context(skip_validation=v)), lambda: self.ex(body),
+                            'with-block on a fresh object')
+                p = p[3]
+            elif op == 't':
+                try:
+                    self.ex(p[1])
+                except Boom:
+                    self.check('in the handler of an exception raised inside')
+                p = p[2]
+            else:
+                raise ValueError(op)
+
+    def run(self, prog):
+        pykoop.set_config(skip_validation=self.start)
+        self.cur = self.start
+        raised = False
+        try:
+            try:
+                self.check('start')
+                self.ex(prog)
+            except Boom:
+                raised = True
+            self.check('after the whole program' + (' (left by an exception)' if raised else ''))
+            self.probe('validation probe after the whole program')
+        except Abort:
+            pass
+        return self.bad
+
+
+def run_reprog(vals, start, prog, in_thread):
+    """-> (Reentry object or None on timeout)"""
+    box = {}
+
+    def body():
+        r = Reentry(vals, start)
+        r.run(prog)
+        box['r'] = r
+    if in_thread:
+        th = threading.Thread(target=body, daemon=True)
+        th.start()
+        th.join(30)
+    else:
+        try:
+            body()
+        finally:
+            pykoop.set_config(skip_validation=False)
+    return box.get('r')
+
+
+class RWorker(threading.Thread):
+    """executes atoms on command; decorated calls are real call frames that stay open until the 'X' / 'R' atom"""
+
+    def __init__(self, cms, fns):
+        super().__init__(daemon=True)
+        self.q = queue.Queue()
+        self.r = queue.Queue()
+        self.cms = cms
+        self.fns = fns
+        self.stop = False
+        self.entries = 0
+
+    def cfg(self):
+        return pykoop.get_config().get('skip_validation')
+
+    def run(self):
+        self.loop(False)
+
+    def loop(self, inner):
+        held = []
+        if inner:
+            self.entries += 1
+            self.r.put(('ok', self.cfg()))
+        while True:
+            a = self.q.get()
+            if a is None:
+                self.stop = True
+                return
+            kind, arg = a
+            status = 'ok'
+            try:
+                if kind == 's':
+                    pykoop.set_config(skip_validation=arg)
+                elif kind == 'v':
+                    status = 'on' if validation_active() else 'off'
+                elif kind == 'D':
+                    n0 = self.entries
+                    try:
+                        self.fns[arg](self)
+                    except Boom:
+                        pass
+                    except Exception:
+                        status = 'refused' if self.entries == n0 else 'exit-error'
+                    if self.stop:
+                        return
+                elif kind in ('W', 'F'):
+                    cm = self.cms[arg] if kind == 'W' else pykoop.config_context(skip_validation=arg)
+                    try:
+                        cm.__enter__()
+                        held.append(cm)
+                    except Exception:
+                        status = 'refused'
+                elif kind in ('X', 'R'):
+                    if held:
+                        cm = held.pop()
+                        if kind == 'X':
+                            cm.__exit__(None, None, None)
+                        else:
+                            try:
+                                raise Boom()
+                            except Boom:
+                                cm.__exit__(*sys.exc_info())
+                    elif inner:
+                        if kind == 'X':
+                            return
+                        raise Boom()
+            except Boom:
+                raise
+            except Exception:
+                status = 'exit-error'
+            self.r.put((status, self.cfg()))
+
+    def do(self, a):
+        self.q.put(a)
+        return self.r.get(timeout=20)
+
+
+def _enter_loop(w):
+    w.loop(True)
+
+
+def gen_resched(rng, n_threads, npool, n_atoms, overlap=False):
+    kinds = ['g', 'g', 's', 's', 'D', 'D', 'D', 'D', 'W', 'F', 'X', 'X', 'X', 'R', 'v']
+    sched = []
+    if overlap:
+        # every thread makes its own setting, then all of them are inside a block of the same shared decorated
+        # function at the same time and leave it in a random order
+        k = rng.randrange(npool)
+        order = list(range(n_threads))
+        rng.shuffle(order)
+        for t in order:
+            sched.append([t, 's', rng.choice([True, False, None])])
+        rng.shuffle(order)
+        for t in order:
+            if rng.random() < 0.3:
+                sched.append([t, 'F', rng.choice([True, False, None])])
+            sched.append([t, 'D', k])
+            if rng.random() < 0.3:
+                kk = rng.choice(['g', 's', 'D'])
+                sched.append([rng.randrange(n_threads), kk,
+                              rng.choice([True, False]) if kk == 's' else (k if kk == 'D' else None)])
+        rng.shuffle(order)
+        for t in order:
+            sched.append([t, rng.choice(['X', 'X', 'R']), None])
+            sched.append([t, rng.choice(['g', 'v']), None])
+        n_atoms = rng.randint(0, 6)
+    for _ in range(n_atoms):
+        k = rng.choice(kinds)
+        arg = None
+        if k in ('s', 'F'):
+            arg = rng.choice([None, True, False])
+        elif k in ('D', 'W'):
+            arg = rng.randrange(npool)
+        sched.append([rng.randrange(n_threads), k, arg])
+    return sched
+
+
+def run_resched(vals, sched, n_threads):
+    """-> (discrepancy or None, stats).  Expected values: per-thread stack discipline, nothing shared between threads."""
+    cms = [pykoop.config_context(skip_validation=v) for v in vals]
+    fns = [cm(_enter_loop) for cm in cms]                  # one decorated function per object, shared by all threads
+    wcms = [pykoop.config_context(skip_validation=v) for v in vals]   # objects entered with __enter__ / __exit__
+    ws = [RWorker(wcms, fns) for _ in range(n_threads)]
+    for w in ws:
+        w.start()
+    cur = [False] * n_threads                               # a fresh thread starts from the default
+    stack = [[] for _ in range(n_threads)]                  # (saved value, object id or None)
+    stats = {'refused': 0, 'entered': 0, 'concurrent': 0, 'nested_same': 0, 'replies': 0}
+    bad = None
+    try:
+        for i, (t, k, arg) in enumerate(sched):
+            rep = ws[t].do((k, arg))
+            stats['replies'] += 1
+            status, got = rep
+            if k == 's':
+                if arg is not None:
+                    cur[t] = arg
+            elif k in ('D', 'W', 'F'):
+                if status == 'ok':
+                    oid = None if k == 'F' else (k, arg)
+                    v = arg if k == 'F' else vals[arg]
+                    if oid is not None:
+                        if any(o == oid for u in range(n_threads) if u != t for _, o in stack[u]):
+                            stats['concurrent'] += 1
+                        if any(o == oid for _, o in stack[t]):
+                            stats['nested_same'] += 1
+                    stack[t].append((cur[t], oid))
+                    stats['entered'] += 1
+                    if v is not None:
+                        cur[t] = v
+                elif status == 'refused':
+                    stats['refused'] += 1
+            elif k in ('X', 'R'):
+                if stack[t]:
+                    cur[t] = stack[t].pop()[0]
+            if k == 'v' and status != ('off' if cur[t] else 'on'):
+                bad = {'atom': i, 'thread': t, 'expected': cur[t], 'observed': status == 'off',
+                       'at': 'validation probe (NaN input ' + ('accepted' if status == 'off' else 'rejected') + ')'}
+                break
+            if got is not cur[t]:
+                bad = {'atom': i, 'thread': t, 'expected': cur[t], 'observed': got, 'at': f'after atom {k} {arg}',
+                       'status': status}
+                break
+    finally:
+        for w in ws:
+            w.q.put(None)
+    return bad, stats
+
+
+def reentry_part(ctx):
+    """direct oracle (no model in between): fails with the concrete program / schedule"""
+    validation_active()                                     # fitted once, here, before any thread uses it
+    for i in range(ctx.n(150, 1500)):
+        npool = ctx.rng.randint(1, 3)
+        vals = [ctx.rng.choice([None, True, False, True, False]) for _ in range(npool)]
+        start = ctx.rng.random() < 0.5
+        prog = gen_reprog(ctx.rng, npool)
+        in_thread = (i % 2 == 1)
+        r = run_reprog(vals, start, prog, in_thread)
+        case = {'reentry_prog': prog, 'pool': vals, 'start': start, 'thread': 'worker' if in_thread else 'main'}
+        ctx.record_case(case, True)
+        ctx.count('reentry:programs')
+        if r is None:
+            ctx.fail('a program of config_context blocks did not finish within 30 s', case, {'part': 'config'})
+            continue
+        ctx.count('reentry:settings_compared', r.reads)
+        ctx.count('reentry:blocks_entered', r.entered)
+        ctx.count('reentry:refused_entries', r.refused)
+        if r.exit_errors:
+            ctx.count('reentry:exit_errors', r.exit_errors)
+        if r.max_same >= 2:
+            ctx.count('reentry:same_object_active_twice')
+        if r.bad is not None:
+            ctx.fail(f"config_context used as with-block / decorator, also re-entered while active: {r.bad['at']}: "
+                     f"skip_validation is {r.bad['observed']}, the setting of this thread at this point is "
+                     f"{r.bad['expected']} (previous setting not restored on exit)",
+                     dict(case, **r.bad), {'part': 'config', 'route': 'reentry'})
+    for i in range(ctx.n(80, 800)):
+        nt = ctx.rng.randint(2, 3)
+        npool = ctx.rng.randint(1, 2)
+        vals = [ctx.rng.choice([None, True, False, True, False]) for _ in range(npool)]
+        sched = gen_resched(ctx.rng, nt, npool, ctx.rng.randint(8, 22 if ctx.tier == 'quick' else 40),
+                            overlap=(i % 3 == 0))
+        bad, stats = run_resched(vals, sched, nt)
+        case = {'reentry_schedule': sched, 'pool': vals, 'threads': nt}
+        ctx.record_case(case, True)
+        ctx.count('reentry:schedules')
+        ctx.count('reentry:settings_compared', stats['replies'])
+        ctx.count('reentry:blocks_entered', stats['entered'])
+        ctx.count('reentry:refused_entries', stats['refused'])
+        if stats['concurrent']:
+            ctx.count('reentry:object_active_in_two_threads')
+        if stats['nested_same']:
+            ctx.count('reentry:same_object_active_twice')
+        if bad is not None:
+            ctx.fail(f"one config_context object / decorated function shared by {nt} threads: thread {bad['thread']} "
+                     f"{bad['at']}: skip_validation is {bad['observed']}, the setting this thread made itself is "
+                     f"{bad['expected']} (a thread got another thread's setting, or an exit did not restore)",
+                     dict(case, **bad), {'part': 'config', 'route': 'reentry-threads'})
+
+
 # ------------------------------------------------------------------ flag irrelevance
 
 def computations(case, est, kp, K):
@@ -326,10 +786,21 @@ def run(ctx):
                 'that the chosen interleaving is realised, and random structured programs with nested with-blocks and '
                 'exceptions: every get_config() value compared with the config machine; (b) random fitted pipelines of '
                 'all kinds: every public computation run with skip_validation off and on must be bit-identical, and '
-                'transform / round trip under skip_validation=True are compared with the Lean model as well')
+                'transform / round trip under skip_validation=True are compared with the Lean model as well; '
+                '(c) one config_context OBJECT used in every public way - with-block, function decorator (two functions '
+                'decorated by the same object calling each other, recursion), entered again while it is active, left by '
+                'exceptions caught further out, mixed with set_config and fresh blocks, in the importing thread and in '
+                'worker threads - and one object / decorated function shared by 2..3 threads under a stepped '
+                'interleaving (a block stays open in one thread while another enters / leaves the same object): after '
+                'every step get_config() (and, at probes, whether a NaN input is rejected) must equal the setting given '
+                'by a plain per-thread save/restore stack computed by the harness; an entry the implementation refuses '
+                '(an object that cannot be entered again) must leave the setting unchanged')
     ctx.explanation = ('theorems C20_* about the config machine (context restore incl. exceptions, thread isolation for '
                        'every interleaving, fresh-thread default, compile soundness); correspondence with real threads; '
-                       'flag irrelevance is a correspondence/oracle result under the guard that all values stay finite')
+                       'flag irrelevance is a correspondence/oracle result under the guard that all values stay finite; '
+                       'the machine has one saved value per ENTRY of a block - that the implementation keeps it per '
+                       'entry and not per context object (re-entry through the decorator protocol, sharing between '
+                       'threads) is a direct oracle on the implementation (coverage keys reentry:*)')
     ctx.proof_obligations('Properties.C20', THEOREMS)
     drv = ctx.get_driver()
     lines, meta = [], []
@@ -406,6 +877,8 @@ def run(ctx):
         if why:
             ctx.fail(why, case, tags)
     ctx.extra['nonfinite_cases_seen'] = n_nonfinite
+    # every public way of using one config_context object (with / decorator / re-entered while active / shared by threads)
+    reentry_part(ctx)
 
     def search(ctx):
 
@@ -416,4 +889,13 @@ def run(ctx):
 def replay(ctx, path):
     obj = json.load(open(path))
     print(json.dumps(obj, indent=1)[:3000])
+    case = obj.get('case') if isinstance(obj, dict) else None
+    if isinstance(case, dict) and 'reentry_prog' in case:
+        r = run_reprog(case['pool'], case['start'], case['reentry_prog'], case.get('thread') == 'worker')
+        print('re-run:', 'no result' if r is None else (r.bad or 'settings as expected'))
+        return 1 if (r is None or r.bad) else 0
+    if isinstance(case, dict) and 'reentry_schedule' in case:
+        bad, _ = run_resched(case['pool'], [tuple(a) for a in case['reentry_schedule']], case['threads'])
+        print('re-run:', bad or 'settings as expected')
+        return 1 if bad else 0
     return 1
